@@ -9,3 +9,4 @@ import BalmProofs.Props.C03
 #print axioms Balm.Impl.source_valuations_cover
 #print axioms Balm.Impl.valuation_trap
 #print axioms Balm.Props.C04.expandASeeds_inv
+#print axioms Balm.Impl.judgeWeak_sound
